@@ -1871,8 +1871,8 @@ where
                 packet: packet.into(),
                 release_packet_id_if_send_error: None,
             });
+            self.send_post_process(&mut events);
         }
-        self.send_post_process(&mut events);
 
         events
     }
@@ -1907,8 +1907,8 @@ where
                 packet: packet.into(),
                 release_packet_id_if_send_error: None,
             });
+            self.send_post_process(&mut events);
         }
-        self.send_post_process(&mut events);
 
         events
     }
